@@ -3,6 +3,7 @@
   (Helper lemmas: Lemmas/Codec.lean, Lemmas/Value.lean, Lemmas/Decode.lean.)
 -/
 import QiVerif.Lemmas.Decode
+set_option linter.unusedSimpArgs false
 namespace QiVerif.C03
 open QiVerif QiVerif.Sig QiVerif.Codec QiVerif.Value QiVerif.Decode QiVerif.CodecL QiVerif.ValueL QiVerif.DecodeL
 
@@ -43,6 +44,28 @@ theorem codecs_agree (t : Ty) (v : TVal) (ht : Typed t v) (hs : Small v) (f : Na
     decT reflectCfg f t (encR codecKinds t v ++ rest) = .ok (toD t v, rest) := by
   rw [reflect_encoder_is_doc t v ht]
   exact ⟨reader_accepts_doc t v ht f hf rest, reflect_decoder_recovers t v ht hs f hf rest⟩
+
+/-- a dynamic value that holds a dynamic value: the signature `m`, then the inner value -/
+def wrapDyn (inner : Bytes) : Bytes := leN 4 1 ++ [109] ++ inner
+
+theorem parseSig_m : parseSig [109] = .ok (.basic 109) := by
+  have := C09.print_parse (.basic 109) (by simp [C09.WF, basicLetters])
+  simpa [print] using this
+
+/-- **The reader returns a dynamic value nested directly in a dynamic value unchanged as well**
+    (`Typed` excludes that nesting because `NewValue` normalises it — C02 — but the
+    signature-driven reader has no such freedom: every level keeps its signature prefix). -/
+theorem reader_accepts_nested_dynamic (t : Ty) (v : TVal) (ht : Typed (.basic 109) (.dyn t v)) (f : Nat)
+    (hf : vneed (.dyn t v) ≤ f) (rest : Bytes) :
+    readT (f + 1) (.basic 109) (wrapDyn (D (.basic 109) (.dyn t v)) ++ rest) =
+      .ok (wrapDyn (D (.basic 109) (.dyn t v)), rest) := by
+  have hin := rt (.dyn t v) (.basic 109) ht f rest hf
+  have hs : readString (wrapDyn (D (.basic 109) (.dyn t v)) ++ rest) = .ok ([109], D (.basic 109) (.dyn t v) ++ rest) := by
+    have := readString_write [109] (D (.basic 109) (.dyn t v) ++ rest) (by decide)
+    simpa [wrapDyn] using this
+  simp only [readT, width]
+  simp only [hs, parseSig_m, hin]
+  simp [wrapDyn]
 
 /-! ### non-vacuity -/
 
